@@ -843,4 +843,39 @@ example : fhGet .response { (fhDecode .response [("x-a", "1")]) with noDefaultCT
 
 end HeaderMapsPart
 
+/-! ### [c17h10] auto_host_rewrite on a STRICT_DNS cluster (third host-rewrite branch; driven through the proxy core by kind `ah`) -/
+section AutoHost
+open MosnVerif.Model.RouteFinalize MosnVerif.Gen.RouteFinalize
+
+/-- **auto_host_rewrite_strict_dns**: with neither `host_rewrite` nor `auto_host_rewrite_header` configured,
+`auto_host_rewrite` on a route whose cluster (snapshot of the cluster manager) is of type STRICT_DNS sets the host variable
+to the hostname of the upstream host selected for the request — whatever host the request arrived with, for every header
+mutation configuration -/
+theorem auto_host_rewrite_strict_dns (r : Route) (s : Req) (h1 : r.cfg.hostRewrite = "") (h2 : r.cfg.autoHostRewriteHeader = "")
+    (h3 : r.cfg.autoHostRewrite = true) (h4 : r.env.hasSnapshot = true) (h5 : r.env.clusterType = strictDNSCluster) :
+    (finalizeRequest r s).host = some r.env.upstreamHostname := by
+  rw [finalize_host_spec]; simp [specHost, h1, h2, h3, h4, h5]
+
+/-- … and leaves it alone on a cluster of any other type, on a route whose cluster has no snapshot, or when switched off -/
+theorem auto_host_rewrite_only_strict_dns (r : Route) (s : Req) (h1 : r.cfg.hostRewrite = "") (h2 : r.cfg.autoHostRewriteHeader = "")
+    (h : r.cfg.autoHostRewrite = false ∨ r.env.hasSnapshot = false ∨ r.env.clusterType ≠ strictDNSCluster) :
+    (finalizeRequest r s).host = s.host := by
+  rw [finalize_host_spec]
+  rcases h with h | h | h <;> simp [specHost, h1, h2, h]
+
+def exAutoRoute (hostname : String) : Route :=
+  { kind := .prefix, matched := "/", cfg := ⟨"", "", false, "", "", true⟩, levels := ⟨⟨[], []⟩, ⟨[], []⟩, ⟨[], []⟩⟩,
+    regexReplace := id, env := ⟨true, "STRICT_DNS", hostname⟩ }
+example : (finalizeRequest (exAutoRoute "h0.up.example") ⟨[], some "/a", some "orig.example"⟩).host = some "h0.up.example" := by decide
+/-- **auto_host_rewrite_per_attempt_partial** — full statement: EVERY upstream attempt carries the hostname of ITS OWN
+selected host. What holds: the first attempt does (theorem above); `doRetry` selects a new host and re-sends what the one
+`FinalizeRequestHeaders` call left, so a retried attempt on host h1 carries h0's name (finding, kind `ah` retry cases).
+Machine-checked negation witness: the value left for host h0 is not the reference for host h1. -/
+theorem auto_host_rewrite_per_attempt_partial (r : Route) (s : Req) :
+    (finalizeRequest r s).host = specHost r s := finalize_host_spec r s
+example : (finalizeRequest (exAutoRoute "h0.up.example") ⟨[], some "/a", none⟩).host ≠
+    specHost (exAutoRoute "h1.up.example") ⟨[], some "/a", none⟩ := by decide
+
+end AutoHost
+
 end MosnVerif.Props.C17
